@@ -76,6 +76,8 @@ def check_rt(recipe) -> list[Fail]:
             obj = chem.build_ensemble(r)
             if obj.n_conformers < 1:
                 raise HarnessError(">=1 frame")
+            if recipe.get("blank_name"):
+                obj.name = ["", " ", "\t"][recipe["blank_name"] - 1]      # an empty / blank name gives a blank comment line
             text = obj.dumps_xyz()
             if entry == "ens":
                 back = ml.ConformerEnsemble.loads_xyz(text)
@@ -112,6 +114,8 @@ def check_rt(recipe) -> list[Fail]:
                 obj = cls(atoms, name=r["name"], coords=np.array(r["coords"], dtype=float).reshape((len(atoms), 3)))
             else:
                 obj = chem.build_molecule(r, cls)
+            if recipe.get("blank_name"):
+                obj.name = ["", " ", "\t"][recipe["blank_name"] - 1]
             fmt = FMTS[recipe.get("fmt", 0)]
             if fmt is None:
                 text = obj.dumps_xyz()
@@ -252,8 +256,8 @@ def strat_rt(tier):
     molr = chem.molecule_recipe(max_atoms=30 if big else 12, max_bonds=6, attribs=False, mol2_safe=True).map(_xyzify)
     ensr = chem.ensemble_recipe(max_atoms=8, max_bonds=4, max_conf=5, attribs=False, mol2_safe=True).filter(lambda r: len(r["confs"]) >= 1).map(_xyzify)
     return st.one_of(
-        st.fixed_dictionaries({"kind": st.sampled_from(["CartesianGeometry", "Structure", "Molecule"]), "mol": molr, "entry": st.sampled_from(["loads", "loads", "load_stream", "loads_all"]), "fmt": st.integers(0, len(FMTS) - 1), "again": st.booleans()}),
-        st.fixed_dictionaries({"kind": st.just("ConformerEnsemble"), "mol": ensr, "entry": st.sampled_from(["ens", "ens", "all_mol", "all_geom", "all_stream"])}),
+        st.fixed_dictionaries({"kind": st.sampled_from(["CartesianGeometry", "Structure", "Molecule"]), "mol": molr, "entry": st.sampled_from(["loads", "loads", "load_stream", "loads_all"]), "fmt": st.integers(0, len(FMTS) - 1), "again": st.booleans(), "blank_name": st.sampled_from([0, 0, 0, 1, 2, 3])}),
+        st.fixed_dictionaries({"kind": st.just("ConformerEnsemble"), "mol": ensr, "entry": st.sampled_from(["ens", "ens", "all_mol", "all_geom", "all_stream"]), "blank_name": st.sampled_from([0, 0, 0, 1, 2, 3])}),
         st.fixed_dictionaries({"kind": st.just("Substructure"), "mol": molr, "entry": st.just("loads"), "sub": st.lists(st.integers(0, 60), min_size=1, max_size=8)}),
     )
 
